@@ -92,6 +92,11 @@ impl Peer {
         pieces_status: &mut Vec<Status>,
         metainfo: &Metainfo,
     ) -> UnchokeCmd {
+        // Repeated Unchoke, piece already requested from this peer is still downloaded
+        if !self.choked && self.piece_index.is_some() {
+            return UnchokeCmd::Ignore;
+        }
+
         let cmd = match chosen_index {
             Some(chosen_index) => {
                 pieces_status[chosen_index] = match pieces_status[chosen_index] {
